@@ -504,6 +504,10 @@ class World:
         out = []
         try:
             self.subscribe_initial("ChatFromViewer", "ChatFromSimulator")
+            self.wait_futs = []
+            for wcfg in self.case.get("waits", []):
+                mh = self.session.message_handler if wcfg["h"] == "s" else self.region.message_handler
+                self.wait_futs.append(mh.wait_for(tuple(wcfg["names"]), take=bool(wcfg["take"]), timeout=None))
             for mcfg in self.case["msgs"]:
                 self.cur = mcfg
                 self.install_hooks(mcfg)
@@ -925,9 +929,69 @@ def nontrivial(case):
 # --------------------------------------------------------------------------
 # framework entry points
 
+def suite_waits(ctx):
+    """MessageHandler.wait_for (the helper addons use to await a reply) on SEVERAL message names: the waiter may claim the first
+    matching message (take=True) and nothing else - every other message, before or after, of any of the names, is put on the
+    wire exactly once; with take=False it claims nothing.  Impl-level oracle on the real proxy (no model)."""
+    res = CorrResult(suite="wait_for on several message names: only the awaited message may be claimed (impl-level oracle)",
+                     rule="session- or region-level wait_for on {ChatFromViewer, ChatFromSimulator} or one of them, take True/False, "
+                          "0..2 waiters, followed by every sequence of 1..4 plain datagrams of the two names: per datagram the number "
+                          "of times the original reaches the wire; a waiter may claim only the first datagram that matches it")
+    names_all = ("ChatFromViewer", "ChatFromSimulator")
+    n = nt = 0
+    seen = set()
+    wsets = [[]]
+    for h in ("s", "r"):
+        for nm in (list(names_all), [names_all[0]], [names_all[1]]):
+            for take in (1, 0):
+                wsets.append([{"h": h, "names": nm, "take": take}])
+    wsets.append([{"h": "s", "names": list(names_all), "take": 1}, {"h": "r", "names": list(names_all), "take": 1}])
+    wsets.append([{"h": "s", "names": list(names_all), "take": 1}, {"h": "s", "names": list(names_all), "take": 1}])
+    for waits in wsets:
+        for k in range(1, ctx.pick(3, 4) + 1):
+            for dirs in itertools.product((0, 1), repeat=k):
+                msgs = [dict({"kind": "P", "ncmd": 0, "rel": 1, "acks": 0}, **({"inbound": 1} if d else {})) for d in dirs]
+                case = {"msgs": msgs, "waits": waits}
+                line, traces = run_impl(case)
+                n += 1
+                if waits:
+                    nt += 1
+                if line.startswith("EXC:"):
+                    if "harness" not in seen:
+                        seen.add("harness")
+                        res.disagreements.append({"case": case, "impl": line[:300]})
+                    continue
+                # reference: each waiter claims (if take) the first datagram, in order, that matches its names and is still unclaimed
+                pending = [dict(w) for w in waits]
+                for i, (d, toks) in enumerate(zip(dirs, traces)):
+                    name = names_all[1] if d else names_all[0]
+                    claimed = False
+                    for w in list(pending):
+                        if name in w["names"]:
+                            pending.remove(w)
+                            if w["take"]:
+                                claimed = True
+                    n_orig = sum(1 for t in toks if t.startswith("O"))
+                    want = 0 if claimed else 1
+                    if n_orig != want and "E" not in toks:
+                        cls = "waiter-claims-unawaited-message" if n_orig < want else "awaited-message-forwarded-too"
+                        if n_orig > 1:
+                            cls = "duplicate-send"
+                        if cls not in seen:
+                            seen.add(cls)
+                            res.impl_violations.append({"clause": "exactly once unless an addon or the command channel claimed it (a finished "
+                                                                  "wait_for claims nothing further)", "class": cls, "case": case, "msg_index": i,
+                                                        "sends": n_orig, "expected": want, "trace": " ".join(toks)})
+                        break
+    res.evaluations = n
+    res.distinct_nontrivial = nt
+    return res
+
+
 def correspond(ctx):
     try:
-        return _correspond(ctx)
+        r = _correspond(ctx)
+        return (r if isinstance(r, list) else [r]) + [suite_waits(ctx)]
     finally:
         _Env.close()
 
@@ -1207,6 +1271,21 @@ def replay(ctx, case):
             impl, _ = run_impl(case["case"])
             return impl.strip() != case["model"].strip(), {"impl": impl.strip(), "model": case["model"]}
         c = case.get("case", case) if isinstance(case, dict) else case
+        if isinstance(c, dict) and c.get("waits") is not None and "msgs" in c:
+            line, traces = run_impl(c)
+            names_all = ("ChatFromViewer", "ChatFromSimulator")
+            pending = [dict(w) for w in c["waits"]]
+            for i, (m, toks) in enumerate(zip(c["msgs"], traces)):
+                name = names_all[1] if m.get("inbound") else names_all[0]
+                claimed = False
+                for w in list(pending):
+                    if name in w["names"]:
+                        pending.remove(w)
+                        claimed = claimed or bool(w["take"])
+                n_orig = sum(1 for t in toks if t.startswith("O"))
+                if n_orig != (0 if claimed else 1):
+                    return True, {"msg_index": i, "sends": n_orig, "expected": 0 if claimed else 1, "trace": " ".join(toks)}
+            return False, "holds"
         if "ops" in c and "msgs" not in c:
             il = run_ops_impl(c.get("rel", 0), c.get("acks", 0), c["ops"])
             oks = il.split()[0]
